@@ -8,7 +8,13 @@
 #[path = "../../../../repo/bindgen-tests/tests/parse_callbacks/mod.rs"]
 mod parse_callbacks;
 
+mod fmtdrive;
+mod constructs;
+mod depsdrive;
 mod inventory;
+mod postprocess;
+mod regexdrive;
+mod roundtrip;
 mod run;
 
 fn main() {
@@ -20,6 +26,12 @@ fn main() {
     let code = match args[1].as_str() {
         "run" => run::main(&args[2..]),
         "inventory" => inventory::main(&args[2..]),
+        "deps" => depsdrive::main(&args[2..]),
+        "postprocess" => postprocess::main(&args[2..]),
+        "constructs" => constructs::main(&args[2..]),
+        "roundtrip" => roundtrip::main(&args[2..]),
+        "fmtdrive" => fmtdrive::main(&args[2..]),
+        "regex" => regexdrive::main(&args[2..]),
         other => {
             eprintln!("unknown sub-command {other}");
             2
